@@ -1255,6 +1255,8 @@ func (fc *FuncCtx) execRecv(fr *Frame, st *State, x *ssa.UnOp) Value {
 }
 
 func (fc *FuncCtx) execSelect(fr *Frame, st *State, x *ssa.Select) Value {
+	// `at call select ...` clauses apply just before a select statement
+	fc.atCallClauses(fr, st, x, "select", "select", map[string]Value{}, x.Pos())
 	n := len(x.States)
 	idx := fc.u.fresh("select.idx", "Int")
 	lo := "0"
